@@ -1,9 +1,27 @@
-import TonVerif.Model.VmStack
-namespace TonVerif.C17
-open TonVerif TonVerif.Model TonVerif.Model.Vm
+/-
+C17 — TVM stack values round-trip and serialising does not consume them.
 
-/-- temporary -/
-theorem c17_tmp {R} (mk : Bits → List R → Option R) : serStackList mk [] = build mk BOp.skip := by
-  simp [serStackList]
+Model: `Model/VmStack.lean` (hand mirror of `pytoniq_core/tlb/vm_stack.py`), spec: `Spec/Tlb/VmStack.lean`
+(block.tlb as relations).  Python lists are stored last-element-first in the model (a stack is written top
+first, a tuple last entry first), see the header of the model file.  `mk` = `Builder.end_cell`, `view` =
+what `begin_parse` shows, `ord` = "ordinary cell"; `Laws` = a constructed cell shows the data it was made
+from and is ordinary.
+-/
+import TonVerif.Proofs.VmStack
+namespace TonVerif.C17
+open TonVerif TonVerif.Model TonVerif.Model.Vm TonVerif.Spec.Vm TonVerif.Proofs.Vm
+
+variable {R : Type} {mk : Bits → List R → Option R} {view : R → Bits × List R} {ord : R → Bool}
+
+/-- `c17_schema`: whenever `VmStack.serialize(vs)` returns a cell, the cell's content is an encoding of `vs`
+    under the VmStack schema of block.tlb — for every stack, every nesting of tuples and every continuation
+    kind: 24-bit depth, `VmStackList` chained through the first reference, `vm_stk_tinyint` exactly when
+    −2^63 ≤ v < 2^63 and the 15-bit tag `0201_` + int257 otherwise, tuple chaining for lengths 0, 1, 2, 3+. -/
+theorem c17_schema (L : Laws mk view ord) (vs : List (Val R)) (c : R) (h : serialize mk vs = some c) :
+    IsStack view ord vs (view c).1 (view c).2 := by
+  unfold serialize at h
+  obtain ⟨bt, hbt, rfl⟩ := Option.map_eq_some_iff.mp h
+  obtain ⟨hs, hmk⟩ := ser_stack L vs bt hbt
+  rw [L.view_mk _ _ _ hmk]; exact hs
 
 end TonVerif.C17
